@@ -142,6 +142,14 @@ pub fn drive(vectors: Option<&str>, corpus: &str, seed: u64, out: &str, thorough
   for (l, path, text) in util::corpus(corpus) {
     // the file itself, a version with a syntax error, and a truncated one
     let mut variants = vec![("orig", text.clone())];
+    // a very long first line: columns beyond 255
+    if path.contains("/a.") {
+      // the first lines are joined into one: many nodes start beyond column 255
+      let joined: String = text.splitn(14, '\n').collect::<Vec<_>>().join(" ");
+      // short enough (<= 1500 characters) for the position clause to be judged on it
+      let head: String = joined.chars().take(900).collect();
+      variants.push(("longline", format!("{}{}", "  ".repeat(140), head)));
+    }
     let chars: Vec<char> = text.chars().collect();
     if chars.len() > 10 {
       let cut = rng.below(chars.len() - 1);
